@@ -389,9 +389,15 @@ def check_matrix(ctx):
                              for _ in range(T)])
             for ttype in ("above", "below"):
                 v = rng.randint(-10, 10) / 4.0
-                got = E.make_event_matrix(data, threshold_method="value",
-                                          threshold_values=v,
-                                          threshold_types=ttype)
+                try:
+                    got = E.make_event_matrix(data, threshold_method="value",
+                                              threshold_values=v,
+                                              threshold_types=ttype)
+                except OSError:
+                    # documented rejection: the value lies outside the
+                    # range of some variable
+                    ctx.stat("threshold value rejected")
+                    continue
                 want = (data > v) if ttype == "above" else (data < v)
                 ctx.evaluations += 1
                 if not np.array_equal(np.asarray(got).astype(bool), want):
